@@ -456,7 +456,36 @@ def r6_arity(ctx):
     ctx.floor(rule, n, 2, "arity tests in the TCP command handlers")
 
 
+NORMALISE = re.compile(r"core::str::<impl str>::(trim\w*|to_lowercase|to_uppercase|to_ascii_lowercase|to_ascii_uppercase|replace\w*|strip_\w+|split\w*|chars)$|\bString::(to_lowercase|to_uppercase)$")
+
+
+def normalised_checks(b):
+    """calls that normalise a string (trim / case / replace / strip) inside a validator: what is then checked is not what is stored and emitted"""
+    return [c for c in b.calls if c.bb in b.live_blocks() and not c.expn and re.search(r"::(trim\w*|to_lowercase|to_uppercase|to_ascii_lowercase|to_ascii_uppercase|replace\w*|strip_\w+)$", c.name)]
+
+
+def r8_validate_what_is_emitted(ctx, krate="cascette_ribbit", floor=2):
+    """the validators of the build database decide about the strings that the response builders later print verbatim (R4): a validator that trims,
+    re-cases or strips its input before testing it accepts strings whose emitted form the client's typed parser rejects"""
+    rule = "C15.R8"
+    ctx.rule(rule, "validate* functions of the build database test the stored string itself (no trim / case folding / replace / strip before the test)")
+    n = 0
+    for b in sorted(ctx.prog.bodies.values(), key=lambda x: x.id):
+        root = ctx.prog.bodies.get(b.root) if b.root else b
+        if b.krate != krate or root is None or not re.match(r"validate", root.item or "") or not re.search(r"database\.rs$|config\.rs$", b.file or "") and krate == "cascette_ribbit":
+            continue
+        n += 1
+        ctx.saw(b)
+        bad = normalised_checks(b)
+        ctx.check(not bad, rule, [b.id, "tests-stored-string"], "no normalisation before the test",
+                  "%s normalises its input with %s before testing it, but the record keeps the original string and the response builders print it verbatim: a value "
+                  "that only passes after normalisation (padded with whitespace, other case) is accepted at load time and then rejected by the client's typed "
+                  "BPSV parser" % (ctx._stable(b.id), bad[0].name.split("::")[-1] if bad else "?"), bad[0].loc() if bad else b.loc())
+    ctx.floor(rule, n, floor, "validate* bodies of the build database / server configuration")
+
+
 def run(ctx):
+    r8_validate_what_is_emitted(ctx)
     r1_no_panic(ctx)
     r2_bounded_reads(ctx)
     r3_isolation(ctx)
